@@ -720,6 +720,43 @@ def real_operator_runs(run):
     return count
 
 
+def build_with_retry(run):
+    """run.build_props, repeated when the build died without a Coq error location (a killed make/coqc on a
+    loaded machine); a genuine failure (File "...", line N: Error) is reported at once."""
+    import re as _re
+    import time as _time
+    for attempt in range(3):
+        nb, no = len(run.broken), len(run.obligations)
+        if run.build_props():
+            return True
+        log = run.broken[-1].get("log", "") if len(run.broken) > nb else ""
+        if _re.search(r'File "[^"]+", line \d+', log) or attempt == 2:
+            return False
+        run.notes.append("build attempt %d ended without a Coq error location (%s); retrying" % (attempt + 1, log[-200:]))
+        del run.broken[nb:]
+        del run.obligations[no:]
+        _time.sleep(5 * (attempt + 1))
+    return False
+
+
+def correspond_with_retry(run, group, terms, cases):
+    """run.correspond, repeated (with smaller shards) when a coqc process died without a verdict -- e.g. killed
+    under memory pressure on a loaded machine.  A shard that was evaluated and disagrees is never retried; only
+    attempts in which some shard produced no result at all are discarded and redone."""
+    import copy as _copy
+    import time as _time
+    for attempt, shard in enumerate((400, 200, 100)):
+        saved = (list(run.disagreements), run.traces, _copy.deepcopy(run.corr_groups))
+        run.correspond(group, "C02", terms, cases, requires=["From Coq Require Import PrimFloat."], shard=shard)
+        errors = [d for d in run.disagreements[len(saved[0]):] if d.get("coq_error") is not None]
+        if not errors or attempt == 2:
+            return
+        run.notes.append("correspondence attempt %d: %d coqc process(es) ended without a result (%s); retrying"
+                         % (attempt + 1, len(errors), (errors[0]["coq_error"].get("log") or "no output")[-200:]))
+        run.disagreements[:], run.traces, run.corr_groups = saved[0], saved[1], saved[2]
+        _time.sleep(5 * (attempt + 1))
+
+
 # --------------------------------------------------------------------------- entry
 def main(run):
     run.rule = ("instrumented: varAnd on populations of size 0..4 under every firing pattern of its n//2+n draws (probabilities 0 and 1 "
@@ -745,9 +782,9 @@ def main(run):
                         "GP node descriptors (gp.Primitive/gp.Terminal) are immutable shared constants",
                         "varOr: cxpb + mutpb <= 1; population of at least 2 when a crossover draw occurs and at least 1 "
                         "otherwise (the real code raises ValueError / IndexError there, proved as guards)"]
-    run.build_props()
+    build_with_retry(run)
     terms, cases = [], []
     instrumented_cases(run, terms, cases)
-    run.correspond("variation", "C02", terms, cases, requires=["From Coq Require Import PrimFloat."])
+    correspond_with_retry(run, "variation", terms, cases)
     nreal = real_operator_runs(run)
     run.extra_cov["real_operator_runs"] = nreal
